@@ -526,7 +526,7 @@ func firstLine(s string) string {
 }
 
 func writeViolation(rc *runCtx, h *harness, v *interp.Violation, class string, k int) string {
-	dir := filepath.Join(verifDir, "replays", rc.id)
+	dir := filepath.Join(outDir, "replays", rc.id)
 	os.MkdirAll(dir, 0o755)
 	safe := strings.Map(func(r rune) rune {
 		if r >= 'a' && r <= 'z' || r >= 'A' && r <= 'Z' || r >= '0' && r <= '9' {
